@@ -24,5 +24,8 @@ for log in sorted(Path("/tmp").glob("vseed-C*-*.log")):
         continue
     if (dst / "results.json").exists() and "--redo" not in sys.argv:
         continue
-    subprocess.check_call(["python3", "/verif/tools/import_seed.py", pid, var], stdout=subprocess.DEVNULL)
+    if Path(f"/tmp/seed/{pid}-out/{var}/patch.diff").exists():
+        subprocess.check_call(["python3", "/verif/tools/import_seed.py", pid, var], stdout=subprocess.DEVNULL)
+    elif not (dst / "patch.diff").exists():
+        continue
     subprocess.call(["python3", "/verif/tools/run_seeded.py", str(dst), pid] + RELATED.get(pid, []))
